@@ -23,7 +23,7 @@ let () = register "kmodel" (fun () ->
     (String.concat " " (List.map (function RetBool true -> "T" | RetBool false -> "F" | RetData -> "D" | Raise -> "R") outs)))
 
 (* wrapper <alarm_route> <n> (<native> <alarm>)*  ->  OK <status token after each run> *)
-let () = register "wrapper" (fun () ->
+let () = register "swrapper" (fun () ->
   let rt = next_bool () in
   let xs = next_list (fun () -> let s = next () in let a = next_bool () in { run_native = status_of_int s; run_alarm = a }) in
   let outs = run_wrapper rt xs in
